@@ -7,16 +7,20 @@ from checks import c05 as W
 LEVEL = "proof"
 MANIFEST = dict(
     level="proof",
-    text=("Lean 4 theorems over the executable WAL model (replay of a log is idempotent over any partially applied image, so death "
-          "during a checkpoint or during recovery itself is harmless; recovery after a kill yields the image of a savepoint) plus exhaustive "
-          "crash enumeration on the real code: a child process runs random put/del/sync/new-db/checkpoint histories and is killed before "
-          "every single file-system effect (write, pwrite, ftruncate, fsync, fdatasync, msync, and the store of every log record during "
-          "checkpoints, incl. growth-forced ones and kills inside the recovery), the store is reopened and must equal the python reference "
-          "after a prefix of the issued operations that contains everything completed before the last durable point; every real checkpoint "
-          "(pre-image, log, post-image) is replayed by the model and compared byte for byte"),
+    text=("Lean 4 theorems over the executable WAL model: the roll-forward of a log of absolute-address records is idempotent over every "
+          "partially applied image (replay_idempotent: a kill between any two records of a checkpoint or of the recovery itself is harmless), "
+          "and a regular checkpoint killed after any number of records is completed exactly by the recovery at the next open "
+          "(checkpoint_kill_recovers); kills between checkpoints are the cut-log theorem of C05. Exhaustive crash enumeration on the real "
+          "code: a child runs random put/del/sync/new-db/checkpoint/close histories and is killed before every single file-system effect "
+          "(write, ftruncate, fsync, msync, and the store of every log record during checkpoints incl. growth-forced ones, plus kills inside "
+          "the recovery); the store is reopened and must equal the python reference after a prefix of the operations that contains "
+          "everything completed before the last durable point; every real checkpoint and every killed checkpoint image is recomputed by the "
+          "model byte for byte"),
     note=("trusted: Lean kernel, translator, harness/generators, gcc+ASan/UBSan, Linux page-cache semantics of process death (completed "
           "write/ftruncate and MAP_SHARED stores survive, MAP_PRIVATE and user buffers are lost); modelled not verified: C control flow; "
-          "the theorem about crash points assumes no growth-forced checkpoint inside an operation (open finding F26); checkpoint thread idle"),
+          "no theorem over traces of the writer (the enumeration covers that part); idempotence is proved for logs without WBRESIZE/WBCOPY; "
+          "the property fails on the tree in the window of open finding F26 (resize-forced checkpoint without savepoint, incl. the tail trim "
+          "of iwkv_close); checkpoint thread idle; tree = /repo + fix commits of branch fix-wal0504"),
     technique="Lean 4 proof over executable model + crash enumeration with link-time interposers + differential correspondence")
 MODULE = "IwModel.Props.C04"
 THEOREMS = ["IwModel.C04.replay_idempotent", "IwModel.C04.replay_idempotent_twice", "IwModel.C04.checkpoint_kill_recovers"]
